@@ -373,6 +373,22 @@ func Corpus(c *Ctx) []*FileSpec {
 		m.Field = append(m.Field, F("tail", 20, Rep, "uint32"))
 		f.MessageType = append(f.MessageType, m)
 		add("special", "special-field-names", true, f)
+
+		// the same names on proto2 fields of every cardinality, incl. required message fields
+		f2 := c.File("special2", "proto2")
+		pkg := c.Pkg("special2")
+		inner := Msg("Inner", F("n", 1, Req, "int32"), F("t", 2, Opt, "string"))
+		m2 := Msg("Holder", F("label", 1, Opt, "string"))
+		shapes := []struct {
+			label descriptorpb.FieldDescriptorProto_Label
+			typ   string
+		}{{Req, FullName(pkg, "Inner")}, {Opt, "string"}, {Rep, "int32"}, {Req, "int32"}, {Opt, FullName(pkg, "Inner")}, {Opt, "bytes"}}
+		for i, n := range c.SpecialFields {
+			sh := shapes[i%len(shapes)]
+			m2.Field = append(m2.Field, F(n, int32(i+2), sh.label, sh.typ))
+		}
+		f2.MessageType = append(f2.MessageType, inner, m2)
+		add("special2", "special-field-names-proto2-required", true, f2)
 	}
 
 	{ // a oneof whose member names collide (in CamelCase) with a message and an enum nested in the same parent:
